@@ -799,6 +799,13 @@ func runCLI(args []string) int {
 		fs.Parse(args[1:])
 		return decCLI(*in, *out)
 	}
+	if args[0] == "big" {
+		fs := flag.NewFlagSet("big", flag.ExitOnError)
+		in := fs.String("in", "", "behaviours of spec/Big.tla (ndjson)")
+		out := fs.String("out", "", "implementation trace (ndjson)")
+		fs.Parse(args[1:])
+		return bigCLI(*in, *out)
+	}
 	if args[0] == "idfmt" {
 		fs := flag.NewFlagSet("idfmt", flag.ExitOnError)
 		in := fs.String("in", "", "candidates (ndjson: {chars: [...]})")
